@@ -1,0 +1,266 @@
+//go:build verif
+
+package analyzer
+
+// Verification hook for the clone-detection pipeline (properties C08, C09 of the
+// external verification harness). Add-only; compiled only with -tags verif.
+// It runs the production fragment extraction, the exhaustive double loop, the
+// public DetectClonesWithContext (which may batch), the batched loop for given
+// batch sizes and the LSH path on the same fragments, and reports everything the
+// abstract model needs: per-fragment facts and the raw similarity/distance/gate
+// for fragment pairs.
+
+import (
+	"context"
+	"crypto/sha256"
+	"fmt"
+	"sort"
+
+	"github.com/ludo-technologies/pyscn/internal/parser"
+)
+
+type VerifCloneFile struct {
+	Path string `json:"path"`
+	Text string `json:"text"`
+}
+
+type VerifLSHParams struct {
+	Bands     int     `json:"bands"`
+	Rows      int     `json:"rows"`
+	Hashes    int     `json:"hashes"`
+	Threshold float64 `json:"threshold"`
+}
+
+type VerifCloneRequest struct {
+	Files      []VerifCloneFile
+	Config     CloneDetectorConfig
+	BatchSizes []int
+	LSH        []VerifLSHParams
+	Table      string // "full" (both orientations), "upper" (i<j), "none"
+}
+
+type VerifFrag struct {
+	File  string `json:"file"`
+	Start int    `json:"start"`
+	End   int    `json:"end"`
+	Size  int    `json:"size"`
+	Lines int    `json:"lines"`
+	Tree  string `json:"tree,omitempty"`
+	Feats []int  `json:"feats,omitempty"`
+	Kind  string `json:"kind,omitempty"`
+}
+
+type VerifPair struct {
+	I    int     `json:"i"`
+	J    int     `json:"j"`
+	Sim  float64 `json:"sim"`
+	Dist float64 `json:"dist"`
+	Type int     `json:"type"`
+}
+
+type VerifCell struct {
+	I    int     `json:"i"`
+	J    int     `json:"j"`
+	Sim  float64 `json:"sim"`
+	Dist float64 `json:"dist"`
+	Gate bool    `json:"gate"`
+	Jac  float64 `json:"jac"`
+}
+
+type VerifLSHResult struct {
+	Params   VerifLSHParams `json:"params"`
+	LSHFeats [][]int        `json:"lshfeats"`
+	Sigs     [][]string     `json:"sigs"`
+	BandKeys [][]string     `json:"bandkeys"`
+	Pairs    []VerifPair    `json:"pairs"`
+}
+
+type VerifCloneResult struct {
+	Candidates []VerifFrag            `json:"candidates"`
+	Frags      []VerifFrag            `json:"frags"`
+	Table      []VerifCell            `json:"table"`
+	ExhRaw     []VerifPair            `json:"exh_raw"`
+	Detect     []VerifPair            `json:"detect"`
+	Batched    map[string][]VerifPair `json:"batched"`
+	LSH        []VerifLSHResult       `json:"lsh"`
+	UsesGate   bool                   `json:"uses_gate"`
+	ParseErrs  []string               `json:"parse_errors,omitempty"`
+}
+
+func verifTreeHash(t *TreeNode) string {
+	h := sha256.New()
+	var walk func(n *TreeNode)
+	walk = func(n *TreeNode) {
+		if n == nil {
+			h.Write([]byte("<nil>"))
+			return
+		}
+		fmt.Fprintf(h, "(%d:%s", len(n.Label), n.Label)
+		for _, c := range n.Children {
+			walk(c)
+		}
+		h.Write([]byte(")"))
+	}
+	walk(t)
+	return fmt.Sprintf("%x", h.Sum(nil)[:10])
+}
+
+type verifCoder struct{ m map[string]int }
+
+func (c *verifCoder) codes(fs []string) []int {
+	out := make([]int, 0, len(fs))
+	for _, f := range fs {
+		v, ok := c.m[f]
+		if !ok {
+			v = len(c.m) + 1
+			c.m[f] = v
+		}
+		out = append(out, v)
+	}
+	return out
+}
+
+func verifCollectCandidates(cd *CloneDetector, node *parser.Node, file string, out *[]VerifFrag) {
+	if node == nil {
+		return
+	}
+	if cd.isFragmentCandidate(node) {
+		loc := &CodeLocation{FilePath: file, StartLine: node.Location.StartLine, EndLine: node.Location.EndLine}
+		f := NewCodeFragment(loc, node, "")
+		*out = append(*out, VerifFrag{File: file, Start: loc.StartLine, End: loc.EndLine, Size: f.Size, Lines: f.LineCount, Kind: string(node.Type)})
+	}
+	for _, c := range node.Children {
+		verifCollectCandidates(cd, c, file, out)
+	}
+	for _, c := range node.Body {
+		verifCollectCandidates(cd, c, file, out)
+	}
+	for _, c := range node.Orelse {
+		verifCollectCandidates(cd, c, file, out)
+	}
+}
+
+func verifPairs(idx map[*CodeFragment]int, ps []*ClonePair) []VerifPair {
+	out := make([]VerifPair, 0, len(ps))
+	for _, p := range ps {
+		out = append(out, VerifPair{I: idx[p.Fragment1], J: idx[p.Fragment2], Sim: p.Similarity, Dist: p.Distance, Type: int(p.CloneType)})
+	}
+	return out
+}
+
+// VerifCloneRun runs the production pipeline pieces on the given sources.
+func VerifCloneRun(req *VerifCloneRequest) (*VerifCloneResult, error) {
+	ctx := context.Background()
+	res := &VerifCloneResult{Batched: map[string][]VerifPair{}}
+	newDetector := func(mod func(c *CloneDetectorConfig)) *CloneDetector {
+		c := req.Config
+		if mod != nil {
+			mod(&c)
+		}
+		return NewCloneDetector(&c)
+	}
+	cd := newDetector(nil)
+	res.UsesGate = cd.classifier != nil && cd.cloneDetectorConfig.EnableMultiDimensionalAnalysis
+
+	// ---- extraction (production ExtractFragments) + the unfiltered candidate list
+	var frags []*CodeFragment
+	p := parser.New()
+	for _, f := range req.Files {
+		pr, err := p.Parse(ctx, []byte(f.Text))
+		if err != nil || pr == nil || pr.AST == nil {
+			res.ParseErrs = append(res.ParseErrs, f.Path)
+			continue
+		}
+		verifCollectCandidates(cd, pr.AST, f.Path, &res.Candidates)
+		frags = append(frags, cd.ExtractFragments([]*parser.Node{pr.AST}, f.Path)...)
+	}
+	idx := make(map[*CodeFragment]int, len(frags))
+	for i, f := range frags {
+		idx[f] = i
+	}
+
+	// ---- exhaustive double loop, unsorted and untruncated
+	cd.fragments = frags
+	cd.clonePairs = []*ClonePair{}
+	cd.prepareFragments()
+	cd.detectClonePairsStandardWithContext(ctx)
+	res.ExhRaw = verifPairs(idx, cd.clonePairs)
+
+	coder := &verifCoder{m: map[string]int{}}
+	for _, f := range frags {
+		vf := VerifFrag{File: f.Location.FilePath, Start: f.Location.StartLine, End: f.Location.EndLine, Size: f.Size, Lines: f.LineCount}
+		if f.TreeNode != nil {
+			vf.Tree = verifTreeHash(f.TreeNode)
+		}
+		vf.Feats = coder.codes(f.Features)
+		res.Frags = append(res.Frags, vf)
+	}
+
+	// ---- raw similarity table
+	if req.Table == "full" || req.Table == "upper" {
+		for i, a := range frags {
+			for j, b := range frags {
+				if i == j || (req.Table == "upper" && j < i) {
+					continue
+				}
+				if a.TreeNode == nil || b.TreeNode == nil {
+					continue
+				}
+				cell := VerifCell{I: i, J: j, Gate: true}
+				cell.Dist = cd.analyzer.ComputeDistance(a.TreeNode, b.TreeNode)
+				cell.Sim = cd.analyzer.ComputeSimilarity(a.TreeNode, b.TreeNode)
+				if res.UsesGate {
+					cell.Gate = cd.classifier.ClassifyClone(a, b) != nil
+				}
+				cell.Jac = jaccardSimilarity(a.Features, b.Features)
+				res.Table = append(res.Table, cell)
+			}
+		}
+	}
+
+	// ---- the public non-LSH entry point (chooses batching itself)
+	d2 := newDetector(func(c *CloneDetectorConfig) { c.UseLSH = false })
+	ps, _ := d2.DetectClonesWithContext(ctx, frags)
+	res.Detect = verifPairs(idx, ps)
+
+	// ---- the batched loop for explicit batch sizes
+	for _, bs := range req.BatchSizes {
+		d3 := newDetector(nil)
+		d3.fragments = frags
+		d3.clonePairs = []*ClonePair{}
+		d3.prepareFragments()
+		d3.detectClonePairsWithBatchingContext(ctx, d3.cloneDetectorConfig.MaxClonePairs, bs)
+		d3.limitAndSortClonePairs(d3.cloneDetectorConfig.MaxClonePairs)
+		res.Batched[fmt.Sprint(bs)] = verifPairs(idx, d3.clonePairs)
+	}
+
+	// ---- LSH path
+	for _, lp := range req.LSH {
+		lp := lp
+		d4 := newDetector(func(c *CloneDetectorConfig) {
+			c.UseLSH = true
+			c.LSHBands, c.LSHRows, c.LSHMinHashCount, c.LSHSimilarityThreshold = lp.Bands, lp.Rows, lp.Hashes, lp.Threshold
+		})
+		ps, _ := d4.DetectClonesWithLSH(ctx, frags)
+		lr := VerifLSHResult{Params: lp, Pairs: verifPairs(idx, ps)}
+		// the facts the LSH stage derives from each fragment (same calls as DetectClonesWithLSH)
+		extractor := NewASTFeatureExtractor().WithOptions(max(1, lp.Rows), max(2, 4), true, false)
+		hasher := NewMinHasher(lp.Hashes)
+		index := NewLSHIndex(lp.Bands, lp.Rows)
+		lcoder := &verifCoder{m: map[string]int{}}
+		for _, f := range frags {
+			feats, _ := extractor.ExtractFeatures(f.TreeNode)
+			sig := hasher.ComputeSignature(feats)
+			lr.LSHFeats = append(lr.LSHFeats, lcoder.codes(feats))
+			ss := make([]string, len(sig.signatures))
+			for k, v := range sig.signatures {
+				ss[k] = fmt.Sprintf("%016x", v)
+			}
+			lr.Sigs = append(lr.Sigs, ss)
+			lr.BandKeys = append(lr.BandKeys, index.computeBandKeys(sig))
+		}
+		res.LSH = append(res.LSH, lr)
+	}
+	sort.Strings(res.ParseErrs)
+	return res, nil
+}
